@@ -280,6 +280,14 @@ func evalCases(eng *engine, vars []envVar, vals map[string]*val.Val, src string,
 	if encExpr(parsed) != parsedBefore {
 		cc.Oracle, cc.OracleID = "type-checking the desugared tree changed the original parsed tree (the desugared tree shares nodes with it)", "desugar-aliases-input"
 	}
+	// … and desugaring the same parsed tree AGAIN gives the plain tree again: a result that carries
+	// the annotations of the first one shares nodes with it (two compilations of one parsed tree
+	// against different environments would then see each other's resolutions)
+	if cc.OracleID == "" {
+		if again := safely(func() string { return encExpr(trans.Desugar(parsed)) }); again != plain {
+			cc.Oracle, cc.OracleID = "desugaring the same parsed tree a second time, after the first result was type-checked, does not give the plain desugared tree again (the results share nodes)", "desugar-aliases-input"
+		}
+	}
 	cc.Req = sxList("check", eng.funsx, encTVars(vars), plain)
 	cc.Nontriv = true
 	if cerr != nil {
